@@ -27,13 +27,13 @@ def name_has(names, suffixes):
     return False
 
 
-def car_derived(fn, carlike=()):
+def car_derived(fn, carlike=(), seed=()):
     """Locals that *must* hold (a wrapper of / a reference into) the car of a cell: every definition is a car
     accessor call, a call of a local car-like helper, a transparent adaptor applied to such a local, or a copy /
     reference / cast of one.  The cdr of such a cell is part of an *element* (one nesting level down), not the
     successor on the spine being walked."""
     defs = common.defs_of(fn)
-    der = set()
+    der = set(seed)
     changed = True
 
     def src_local(d):
@@ -42,6 +42,9 @@ def car_derived(fn, carlike=()):
             names = F.callee_names(x)
             if name_has(names, CAR_KILLS) or (x["callee"].get("resolved") or x["callee"].get("path")) in carlike:
                 return True
+            # a local helper that hands back (part of) its argument without following a cdr: `map_entry(cell.car())`
+            if ("pass", x["callee"].get("resolved") or x["callee"].get("path")) in carlike and x["args"]:
+                return common.place_local(x["args"][0]) in der
             if name_has(names, TRANSPARENT) and x["args"]:
                 l = common.place_local(x["args"][0])
                 return l in der
@@ -99,6 +102,17 @@ def carlike_fns(crate):
         if not new:
             break
         like |= new
+    # pass-through helpers: the result derives from the first parameter only, through transparent adaptors, and no
+    # cdr is followed inside (`fn map_entry(entry: &Value) -> Result<&Cons> { entry.as_cons().ok_or_else(..) }`)
+    for f in crate.fns:
+        if f.kind == "closure" or f.path in like or f.arg_count < 1 or f.crate != crate.name:
+            continue
+        if not (f.local_ty(1).startswith("&") and ("Cons" in f.local_ty(0) or "Value" in f.local_ty(0))):
+            continue
+        if any(name_has(F.callee_names(t), CDR_SOURCES) or name_has(F.callee_names(t), PAIR_SOURCES) for _, t in f.calls()):
+            continue
+        if 0 in car_derived(f, like, seed=(1,)) and not cdr_taint(f, like):
+            like.add(("pass", f.path))
     return like
 
 
